@@ -352,10 +352,10 @@ def run(ctx: core.Ctx) -> None:
     if os.environ.get('C05_BOUND'):
         plan = [(c, int(os.environ['C05_BOUND'])) for c in CONFIGS]
     elif ctx.tier == 'quick':
-        plan = [('active', 2), ('attempts1', 1), ('gr', 1), ('passive', 1), ('hold0', 1), ('two', 1), ('mirror', 1)]
+        plan = [('active', 2), ('attempts1', 1), ('gr', 1), ('passive', 1), ('hold0', 1), ('hold0local', 1), ('two', 1), ('mirror', 1)]
     else:
         # every configuration to 2 deviations first, then a third (reduced menu) on the active one
-        plan = [('active', 2), ('attempts1', 2), ('gr', 2), ('passive', 2), ('hold0', 2), ('hold0local', 1), ('two', 2), ('mirror', 2), ('active', 3)]
+        plan = [('active', 2), ('attempts1', 2), ('gr', 2), ('passive', 2), ('hold0', 2), ('hold0local', 2), ('two', 2), ('mirror', 2), ('active', 3)]
     if os.environ.get('C05_ONLY'):
         plan = [(c, b) for c, b in plan if c in os.environ['C05_ONLY'].split(',')]
         ctx.cap(f'restricted to configurations {os.environ["C05_ONLY"]} by C05_ONLY')
